@@ -53,6 +53,16 @@ func (com Commitment) Equal(c Commitment) bool {
 // Note: it doesn't verify if the proof is valid or not.
 // Check Verify() for that.
 func (commitmentProof *CommitmentProof) Validate() error {
+	for i, subtreeRootProof := range commitmentProof.SubtreeRootProofs {
+		if subtreeRootProof == nil {
+			return fmt.Errorf("subtree root proof %d is nil", i)
+		}
+	}
+	for i, rowProof := range commitmentProof.RowProof.Proofs {
+		if rowProof == nil {
+			return fmt.Errorf("row root proof %d is nil", i)
+		}
+	}
 	if len(commitmentProof.SubtreeRoots) < len(commitmentProof.SubtreeRootProofs) {
 		return fmt.Errorf(
 			"the number of subtree roots %d should be bigger than the number of subtree root proofs %d",
